@@ -18,6 +18,7 @@ import SfProofs.AlacPair
 import SfProofs.AlacEncState
 import SfProofs.AlacLoop
 import SfProps.C01AlacLossless
+import SfProps.C01Alac
 import Mathlib.Tactic.SplitIfs
 namespace Sf.AlacCore
 
@@ -213,5 +214,95 @@ theorem decLoop_enc {cfg : Config} (hd : Depth cfg.bitDepth) (hmb : cfg.mb = 10)
         rw [show 2 + layoutWidth ts = layoutWidth ts + 1 + 1 by omega, chansFrom_succ, chansFrom_succ]
         congr 1
         omega
+
+theorem encElems_length_ge (depth : Nat) (frames : List (List Int)) : ∀ (ts : List Nat) (c m s : Nat) (st : EncState),
+    3 * ts.length ≤ (encElems depth frameLen frames ts c m s st).1.length
+  | [], _, _, _, _ => by simp [encElems]
+  | t :: ts, c, m, s, st => by
+    rw [encElems]
+    split
+    · have := encElems_length_ge depth frames ts (c + 2) m (s + 1) (st.set c (encPair depth frameLen (st.getD c {}) (chanOf frames c) (chanOf frames (c + 1))).2)
+      simp only [List.length_append, bitsOf_length, List.length_cons]; omega
+    · have := encElems_length_ge depth frames ts (c + 1) (m + 1) s (st.set c (encMono depth frameLen (st.getD c {}) (chanOf frames c)).2)
+      simp only [List.length_append, bitsOf_length, List.length_cons]; omega
+
+/-- the state after a packet is again a valid state -/
+theorem alac_encode_state_ok (cfg : Config) (st : EncState) (hst : AllOk st) (frames : List (List Int)) : AllOk (encode cfg st frames).2 := by
+  unfold encode
+  exact encElems_allOk cfg.bitDepth frames _ _ _ _ _ hst
+
+theorem init_allOk (n : Nat) : AllOk (EncState.init n) := by
+  intro c
+  unfold EncState.init
+  rw [List.getD_eq_getElem?_getD]
+  by_cases h : c < max n 8
+  · rw [List.getElem?_replicate]; simp [h]; exact default_pairStateOk
+  · rw [List.getElem?_eq_none (by simp; omega)]; exact default_pairStateOk
+
+/-- ALAC is lossless: for every depth, 1 … 8 channels, every encoder state, every packet of 1 … 4096 frames of int32 samples,
+    `alac_decode (alac_encode (frames))` = the frames with the low `32 - depth` bits cleared -/
+theorem alac_lossless (cfg : Config) (hd : Depth cfg.bitDepth) (hc1 : 1 ≤ cfg.numChannels) (hc8 : cfg.numChannels ≤ 8)
+    (hmb : cfg.mb = 10) (hpb : cfg.pb = 40) (hkb : cfg.kb = 14) (st : EncState) (hst : AllOk st) (frames : List (List Int))
+    (hn : frames.length ≤ 4096) (hf : ∀ f ∈ frames, f.length = cfg.numChannels ∧ ∀ x ∈ f, I32 x) :
+    decodeFresh cfg (encode cfg st frames).1 = frames.map (·.map (trunc cfg.bitDepth)) := by
+  obtain ⟨hl1, hl2, hl3⟩ := layout_facts cfg.numChannels hc1 hc8
+  have hI : ∀ c, ∀ x ∈ chanOf frames c, I32 x := by
+    intro c x hx
+    simp only [chanOf, List.mem_map] at hx
+    obtain ⟨f, hfm, rfl⟩ := hx
+    exact getD_I32 f c (hf f hfm).2
+  have hpk : (encode cfg st frames).1 = pack ((encElems cfg.bitDepth frameLen frames (layout cfg.numChannels) 0 0 0 st).1 ++ bitsOf ID_END 3) := rfl
+  generalize hE : (encElems cfg.bitDepth frameLen frames (layout cfg.numChannels) 0 0 0 st).1 = E at hpk
+  have hge := encElems_length_ge cfg.bitDepth frames (layout cfg.numChannels) 0 0 0 st
+  rw [hE] at hge
+  have hup := unpack_pack (E ++ bitsOf ID_END 3)
+  have hlen := unpack_length (encode cfg st frames).1
+  rw [hpk] at hlen ⊢
+  generalize List.replicate ((8 - (E ++ bitsOf ID_END 3).length % 8) % 8) false = pad at hup
+  have hsz : E.length + 3 ≤ 8 * (pack (E ++ bitsOf ID_END 3)).length := by
+    rw [← hlen, hup]; simp [bitsOf_length]
+  generalize pack (E ++ bitsOf ID_END 3) = pk at hup hsz ⊢
+  have key := decLoop_enc hd hmb hpb hkb pk.length frames hI (by unfold frameLen; exact hn) (bitsOf ID_END 3 ++ pad)
+    (layout cfg.numChannels) (3 * pk.length + 1) 0 0 0 0 frameLen frameLen [] st hl1 hl2 (by omega) rfl (by omega) (fun _ => rfl) hst
+    (by rw [hE] <;> omega)
+  rw [hE] at key
+  unfold decodeFresh decode decodeR decodeWith
+  rw [if_neg (by omega), Rd.ofBytes, hup, List.append_assoc, key, hl3]
+  unfold Res.frames
+  simp only [List.nil_append]
+  rw [applyOut_nil _ _ (by simp [chansFrom]), chansFrom, ← List.range_eq_range']
+  exact transpose_chans (trunc cfg.bitDepth) cfg.numChannels frames (fun f h => (hf f h).1)
+
+/-- lossless, bit exact: samples within the depth's range come back unchanged -/
+theorem alac_lossless_exact (cfg : Config) (hd : Depth cfg.bitDepth) (hc1 : 1 ≤ cfg.numChannels) (hc8 : cfg.numChannels ≤ 8)
+    (hmb : cfg.mb = 10) (hpb : cfg.pb = 40) (hkb : cfg.kb = 14) (st : EncState) (hst : AllOk st) (frames : List (List Int))
+    (hn : frames.length ≤ 4096) (hf : ∀ f ∈ frames, f.length = cfg.numChannels ∧ ∀ x ∈ f, InRange cfg.bitDepth x) :
+    decodeFresh cfg (encode cfg st frames).1 = frames := by
+  rw [alac_lossless cfg hd hc1 hc8 hmb hpb hkb st hst frames hn (fun f h => ⟨(hf f h).1, fun x hx => ((hf f h).2 x hx).1⟩)]
+  conv => rhs; rw [← List.map_id frames]
+  apply List.map_congr_left
+  intro f hfm
+  conv => rhs; rw [id, ← List.map_id f]
+  apply List.map_congr_left
+  intro x hx
+  exact trunc_inRange hd ((hf f hfm).2 x hx)
+
+/-- a whole stream: every packet of the file decodes to what was staged for it -/
+theorem alac_lossless_stream (cfg : Config) (hd : Depth cfg.bitDepth) (hc1 : 1 ≤ cfg.numChannels) (hc8 : cfg.numChannels ≤ 8)
+    (hmb : cfg.mb = 10) (hpb : cfg.pb = 40) (hkb : cfg.kb = 14) : ∀ (blocks : List (List (List Int))) (st : EncState), AllOk st →
+    (∀ fr ∈ blocks, fr.length ≤ 4096 ∧ ∀ f ∈ fr, f.length = cfg.numChannels ∧ ∀ x ∈ f, I32 x) →
+    (encodeAll cfg st blocks).map (decodeFresh cfg) = blocks.map fun fr => fr.map (·.map (trunc cfg.bitDepth))
+  | [], _, _, _ => rfl
+  | fr :: rest, st, hst, h => by
+    obtain ⟨h1, h2⟩ := h fr (by simp)
+    simp only [encodeAll, List.map_cons]
+    rw [alac_lossless cfg hd hc1 hc8 hmb hpb hkb st hst fr h1 h2,
+      alac_lossless_stream cfg hd hc1 hc8 hmb hpb hkb rest _ (alac_encode_state_ok cfg st hst fr) (fun fr' h' => h fr' (by simp [h']))]
+
+/-- non-vacuity: the first packet of a 20-bit, 3-channel file (an SCE and a CPE element), the encoder's initial state -/
+example : decodeFresh ⟨20, 3, 40, 10, 14, 255⟩ (encode ⟨20, 3, 40, 10, 14, 255⟩ (EncState.init 3) [[4096, -8192, 12288], [2147479552, -2147483648, 0]]).1 =
+    [[4096, -8192, 12288], [2147479552, -2147483648, 0]] :=
+  alac_lossless_exact ⟨20, 3, 40, 10, 14, 255⟩ (by unfold Depth; decide) (by decide) (by decide) rfl rfl rfl _ (init_allOk 3) _ (by decide)
+    (by intro f hf; simp at hf; rcases hf with rfl | rfl <;> (refine ⟨rfl, ?_⟩; intro x hx; simp at hx; rcases hx with rfl | rfl | rfl <;> (unfold InRange I32; decide)))
 
 end Sf.AlacCore
